@@ -136,49 +136,54 @@ def resOutcome : Res Entry (List Nat) → Outcome
   | .keyError => .keyError
 
 /-- run a dict entry on forwarded arguments -/
-def runEntry : Nat → Fn → Entry → Dispatch → Nat → Fn × Outcome × Trace
-  | 0, fn, _, _, _ => (fn, .depth, [])
+def runEntry : Nat → Fn → Entry → Dispatch → Nat → Fn × Outcome × Trace × Nat
+  | 0, fn, _, _, _ => (fn, .depth, [], 0)
   | f + 1, fn, e, x, depth =>
     match e with
     | .meth id =>
       match findDef fn id with
-      | none => (fn, .keyError, [])
+      | none => (fn, .keyError, [], 0)
       | some df =>
         match methodBind df.d x with
-        | none => (fn, .methodBindError, [])
+        | none => (fn, .methodBindError, [], 0)
         | some _ =>
           let tr : Trace := [(df.d.id, x.passPos.map (·.vid), x.passKw.map (fun p => (p.1, p.2.vid)))]
-          let deleg (ck : Option Nat) (args : List Arg) (subtler : Bool) : Fn × Outcome × Trace :=
-            if depth ≥ depthLimit then (fn, .depth, tr) else
+          let deleg (ck : Option Nat) (args : List Arg) (subtler : Bool) : Fn × Outcome × Trace × Nat :=
+            if depth ≥ depthLimit then (fn, .depth, tr, 0) else
             let key := keyOfArgs fn.ana subtler args
+            let nr := if fn.mm.resolvesAt (Fn.cfgOf cfg fn.defns) (ck, key) then 1 else 0
             let (mm', r) := fn.mm.lookup (Fn.cfgOf cfg fn.defns) (ck, key)
             let fn' := { fn with mm := mm' }
             match r with
             | .ok e' =>
-              let (fn'', o, t) := runEntry f fn' e' { key := key, passPos := args, passKw := [] } (depth + 1)
-              (fn'', o, tr ++ t)
-            | r => (fn', resOutcome r, tr)
+              let (fn'', o, t, n) := runEntry f fn' e' { key := key, passPos := args, passKw := [] } (depth + 1)
+              (fn'', o, tr ++ t, nr + n)
+            | r => (fn', resOutcome r, tr, nr)
           match df.body with
-          | .ret => (fn, .ran df.d.id, tr)
+          | .ret => (fn, .ran df.d.id, tr, 0)
           | .callNext srcs => deleg (some (codeOfHandle df id)) (evalArgs x.passPos srcs) false
           | .recurse srcs => deleg none (evalArgs x.passPos srcs) false
           | .next srcs => deleg (some (codeOfHandle df id)) (evalArgs x.passPos srcs) true
-    | _ => (fn, .unsupported, [])
+    | _ => (fn, .unsupported, [], 0)
 
-/-- a call of the function object: lazy build, entry point, lookup, method -/
-def Fn.call (fn : Fn) (c : Call) : Fn × Outcome × Trace :=
+/-- a call of the function object: lazy build, entry point, lookup, method; the last component counts the
+    lookups that had to run `resolve` -/
+def Fn.call (fn : Fn) (c : Call) : Fn × Outcome × Trace × Nat :=
   let built : Except CfgErr Fn := if fn.compiled then .ok fn else fn.compile
   match built with
-  | .error _ => (fn, .configError, [])
+  | .error _ => (fn, .configError, [], 0)
   | .ok fn =>
     match entry fn.ana c with
-    | .error _ => (fn, .bindError, [])
+    | .error _ => (fn, .bindError, [], 0)
     | .ok x =>
+      let nr := if fn.mm.resolvesAt (Fn.cfgOf cfg fn.defns) (none, x.key) then 1 else 0
       let (mm', r) := fn.mm.lookup (Fn.cfgOf cfg fn.defns) (none, x.key)
       let fn' := { fn with mm := mm' }
       match r with
-      | .ok e => runEntry cfg 64 fn' e x 1
-      | r => (fn', resOutcome r, [])
+      | .ok e =>
+        let (fn'', o, t, n) := runEntry cfg 64 fn' e x 1
+        (fn'', o, t, nr + n)
+      | r => (fn', resOutcome r, [], nr)
 
 end exec
 end Ovld
